@@ -44,6 +44,33 @@ def opsBox (op : String) (ins outs : List String) : Option String :=
       let x ← parseBox x; let y ← parseBox y; let z ← parseBoxes z
       pure (eqVerdict (showBoxes (Box.diff x y)) (showBoxes (z.filter (!Box.isEmpty ·))))
     | _, _ => none
+  | "vdiffnc" =>
+    -- IntervalVector::diff with compactness = false (flat pieces are kept): judged on the grid of the bounds of x and y and the
+    -- midpoints between them (exact rational points): a point of x outside y must lie in a returned box, every returned box
+    -- lies in x and does not overlap y
+    match ins, outs with
+    | [x, y], [z] => do
+      let x ← parseBox x; let y ← parseBox y; let z ← parseBoxes z
+      let z := z.filter (!Box.isEmpty ·)
+      if Box.isEmpty x then pure (if z.isEmpty then "ok empty" else "FAIL pieces-of-an-empty-box") else
+      if Box.isEmpty y || y.length != x.length then pure (if z == [x] then "ok nothing-removed" else "FAIL difference-with-the-empty-box-is-not-x") else
+      if z.any (fun b => !Box.subset b x) then pure "FAIL piece-not-inside-x" else
+      if z.any (fun b => Box.overlaps b y) then pure "FAIL piece-overlaps-y" else
+      let fin : Ext → Option Rat := fun e => match e with | .fin q => some q | _ => none
+      let cands : List (List Rat) := (List.zip x y).map fun (xi, yi) =>
+        let bs : List Rat := (match xi with | .mk a b => [fin a, fin b].filterMap id | _ => []) ++ (match yi with | .mk a b => [fin a, fin b].filterMap id | _ => [])
+        let bs := bs ++ (match bs with | [] => [0] | _ => [])
+        let sorted := bs.mergeSort (· ≤ ·)
+        let mids := (List.zip sorted (sorted.drop 1)).map fun (a, b) => (a + b) / 2
+        let ext := (match sorted.head?, sorted.getLast? with | some a, some b => [a - 1, b + 1] | _, _ => [])
+        (sorted ++ mids ++ ext).filter fun q => Itv.containsExt xi (.fin q)
+      let pts : List (List Rat) := cands.foldr (fun c acc => c.flatMap fun q => acc.map fun p => q :: p) [[]]
+      let inBox := fun (p : List Rat) (b : Box) => b.length == p.length && (List.zip p b).all fun (q, i) => Itv.containsExt i (.fin q)
+      let lost := pts.find? fun p => !(inBox p y) && !(z.any (inBox p))
+      pure (match lost with
+            | some p => s!"FAIL point-of-x-outside-y-in-no-piece {p}"
+            | none => s!"ok non-compact-difference-covers-the-grid pts={pts.length}")
+    | _, _ => none
   | "vcompl" =>
     match ins, outs with
     | [y], [z] => do
